@@ -225,3 +225,13 @@ func VerifDBInfo(db *DB) (pageSize, datasz int, fileSize int64) {
 	}
 	return db.pageSize, db.datasz, fs
 }
+
+// VerifBatchLen reports how many calls are queued in the currently filling batch (0 if none).
+func VerifBatchLen(db *DB) int {
+	db.batchMu.Lock()
+	defer db.batchMu.Unlock()
+	if db.batch == nil {
+		return 0
+	}
+	return len(db.batch.calls)
+}
